@@ -68,6 +68,7 @@ type c17Line struct {
 	// character (é, € or 😀) in its first or last slot; decided leaf by leaf
 	widePlaced bool
 	noWide     bool
+	noCRLF     bool // the scenario does not vary the line ending for this derivation
 }
 
 var c17WideChars = []string{"é", "€", "😀"}
@@ -158,21 +159,21 @@ func (l *c17Line) slots(name string, n int, first, mid, last string, onlyLetter 
 // ---- alphabets of DESIGN §4.1 ----
 
 var (
-	c17Desc      = zzverif.Printable(";|")
-	c17DescFirst = zzverif.Printable(";| (*!=")
-	c17DescLast  = zzverif.Printable(";| ")
-	c17CodeA     = zzverif.Printable(")")
-	c17SegA      = zzverif.Printable(" ;@=()[]:")
-	c17SegMid    = zzverif.Printable(";@=()[]:") // interior: single spaces allowed
-	c17SegFirst  = zzverif.Printable(" ;@=()[]:*!")
-	c17CommentA  = zzverif.Printable("")
-	c17FreeA     = zzverif.Printable(":,")
-	c17ValueA    = zzverif.Printable(",")
-	c17ValueEnd  = zzverif.Printable(", ")
-	c17NameA     = zzverif.Letters + zzverif.Digit + "-_"
-	c17PathA     = zzverif.Letters + zzverif.Digit + "/.-_*~"
-	c17QuotedA   = zzverif.Printable(";|\"")
-	c17QuotedEnd = zzverif.Printable(";|\" ")
+	c17Desc        = zzverif.Printable(";|")
+	c17DescFirst   = zzverif.Printable(";| (*!=")
+	c17DescLast    = zzverif.Printable(";| ")
+	c17CodeNoColon = zzverif.Printable("):")
+	c17SegA        = zzverif.Printable(" ;@=()[]:")
+	c17SegMid      = zzverif.Printable(";@=()[]:") // interior: single spaces allowed
+	c17SegFirst    = zzverif.Printable(" ;@=()[]:*!")
+	c17CommentA    = zzverif.Printable("")
+	c17FreeA       = zzverif.Printable(":,")
+	c17ValueA      = zzverif.Printable(",")
+	c17ValueEnd    = zzverif.Printable(", ")
+	c17NameA       = zzverif.Letters + zzverif.Digit + "-_"
+	c17PathA       = zzverif.Letters + zzverif.Digit + "/.-_*~"
+	c17QuotedA     = zzverif.Printable(";|\"")
+	c17QuotedEnd   = zzverif.Printable(";|\" ")
 )
 
 const (
@@ -459,9 +460,9 @@ const c17Scenarios = 13
 // c17Scenario builds the line under test; it returns the lines that precede it.
 func c17Scenario(l *c17Line, sc, n int, long bool) []*c17Line {
 	var before []*c17Line
-	ws := func(name string) {
+	ws := func(name string) { // long: one or two blanks (a run of two blanks ends the lexer's look-aheads)
 		if long {
-			l.spaces(1 + zzverif.Choice(name, 3))
+			l.spaces(1 + zzverif.Choice(name, 2))
 		} else {
 			l.spaces(1)
 		}
@@ -469,7 +470,12 @@ func c17Scenario(l *c17Line, sc, n int, long bool) []*c17Line {
 	both := c17Bit(ttPayee) | c17Bit(ttString)
 	switch sc {
 	case 0: // header: date forms, secondary date, status, code; then a plain description
-		l.date("d1", long)
+		// long: either every date form with a plain rest, or one date form with every rest
+		dates := long && zzverif.Choice("focus", 2) == 0
+		if dates {
+			long = false
+		}
+		l.date("d1", dates)
 		if zzverif.Choice("date2", 2) == 1 {
 			l.op("=")
 			l.date("d2", false)
@@ -478,11 +484,26 @@ func c17Scenario(l *c17Line, sc, n int, long bool) []*c17Line {
 			ws("status.ws")
 			l.status(st)
 		}
-		if zzverif.Choice("code", 2) == 1 {
+		if !dates && zzverif.Choice("code", 2) == 1 {
 			ws("code.ws")
 			m := l.mark()
 			l.raw("(")
-			l.slots("code", zzverif.Choice("code.len", n+1), c17CodeA, c17CodeA, c17CodeA, false)
+			// a ':' in the code is a concrete choice (the lexer then takes the content for a
+			// posting: the other characters are kept plain to bound its case splits)
+			k := zzverif.Choice("code.len", n+1)
+			colon := zzverif.Choice("code.colon", k+1) - 1
+			if colon < 0 {
+				l.slots("code", k, c17CodeNoColon, c17CodeNoColon, c17CodeNoColon, false)
+			} else {
+				l.noWide = true
+				for i := 0; i < k; i++ {
+					if i == colon {
+						l.raw(":")
+					} else {
+						l.sym("code.p"+zzverif.Itoa(i), zzverif.Letters+zzverif.Digit+" ")
+					}
+				}
+			}
 			l.raw(")")
 			l.lexeme(m, lfCode, c17Bit(ttCode))
 		}
@@ -498,21 +519,28 @@ func c17Scenario(l *c17Line, sc, n int, long bool) []*c17Line {
 		if zzverif.Choice("hc", 2) == 1 {
 			l.spaces(zzverif.Choice("hc.ws", 2))
 			l.noWide = true
+			l.noCRLF = true // comments at a CRLF line end: scenarios 3, 8, 11
 			l.comment("hc", 1, 1, false)
 		}
 	case 2: // header: payee | note
 		l.fixedDate()
 		l.spaces(1)
-		l.plainText("payee", lfPayee, c17Bit(ttPayee), 1+zzverif.Choice("payee.len", 2))
+		pl := zzverif.Choice("payee.len", 2)
+		l.plainText("payee", lfPayee, c17Bit(ttPayee), 1+pl)
 		l.raw(" ")
 		pm := l.mark()
 		l.raw("|")
 		l.lexeme(pm, lfPipe, c17Bit(ttOperator))
 		l.raw(" ")
-		l.textLeaf("note", lfNote, c17Bit(ttString), 1+zzverif.Choice("note.len", n))
+		nn := n
+		if pl > 0 && nn > 2 { // the longest note only after the shortest payee
+			nn = 2
+		}
+		l.textLeaf("note", lfNote, c17Bit(ttString), 1+zzverif.Choice("note.len", nn))
 		if zzverif.Choice("hc", 2) == 1 {
 			l.spaces(1)
 			l.noWide = true
+			l.noCRLF = true
 			l.comment("hc", 1, 1, false)
 		}
 	case 3: // header comment with tags
@@ -522,24 +550,18 @@ func c17Scenario(l *c17Line, sc, n int, long bool) []*c17Line {
 			l.plainText("desc", lfDesc, both, 1)
 		}
 		l.spaces(zzverif.Choice("hc.ws", 3))
-		l.comment("hc", zzverif.Choice("hc.kind", 5), n, long)
+		l.comment("hc", zzverif.Choice("hc.kind", 5), 2, false) // every tag variant: scenario 8
 	case 4: // posting: indentation and account text, then a plain amount
-		k := 9
-		if !long {
-			k = []int{0, 1, 2, 4, 8}[zzverif.Choice("indent", 5)]
-		} else {
-			k = zzverif.Choice("indent", 9)
-		}
-		l.indent(k)
-		segs := 2
-		if long {
-			segs = 2 + zzverif.Choice("segs", 2)
-		}
+		l.indent([]int{0, 1, 2, 4, 8}[zzverif.Choice("indent", 5)])
 		first := zzverif.Letters // other first characters: scenario 5
 		if long {
 			first = c17SegFirst
 		}
-		l.account("acct", segs, n, first)
+		if long && zzverif.Choice("segs", 2) == 1 {
+			l.account("acct", 3, 1, first) // three segments of one character
+		} else {
+			l.account("acct", 2, n, first)
+		}
 		if zzverif.Choice("amount", 2) == 1 {
 			l.spaces(2)
 			l.number("num", 1)
@@ -568,7 +590,7 @@ func c17Scenario(l *c17Line, sc, n int, long bool) []*c17Line {
 		l.indent(4)
 		l.plainAccountEnd("acct", zzverif.Letters+zzverif.Digit)
 		if long {
-			l.spaces(2 + zzverif.Choice("gap", 3))
+			l.spaces(2 + zzverif.Choice("gap", 2))
 		} else {
 			l.spaces(2)
 		}
@@ -576,10 +598,11 @@ func c17Scenario(l *c17Line, sc, n int, long bool) []*c17Line {
 		if long {
 			lvl = 2
 		}
-		l.amount("amt", n, lvl)
+		l.amount("amt", 2, lvl)
 		if zzverif.Choice("pc", 2) == 1 {
 			l.spaces(zzverif.Choice("pc.ws", 2))
 			l.noWide = true
+			l.noCRLF = true
 			l.comment("pc", 1, 1, false)
 		}
 	case 7: // posting: cost and balance assertion
@@ -587,31 +610,43 @@ func c17Scenario(l *c17Line, sc, n int, long bool) []*c17Line {
 		l.plainAccount("acct")
 		l.spaces(2)
 		l.amount("amt", 1, 0)
-		lvl := 0
-		if long {
+		c := zzverif.Choice("cost", 3)
+		a := zzverif.Choice("assert", 3)
+		// long: every symbol kind in the cost when there is no assertion, and vice versa
+		lvl, lvlBal := 0, 0
+		if long && a == 0 {
 			lvl = 1
 		}
-		c := zzverif.Choice("cost", 3)
+		if long && c == 0 {
+			lvlBal = 1
+		}
 		if c > 0 {
-			ws("cost.ws")
+			g := 1
+			if long {
+				g = 1 + zzverif.Choice("cost.ws", 2) // the same number of blanks on both sides
+			}
+			l.spaces(g)
 			if c == 1 {
 				l.op("@")
 			} else {
 				l.op("@@")
 			}
-			ws("cost.ws2")
-			l.amount("cost", n, lvl)
+			l.spaces(g)
+			l.amount("cost", 2, lvl)
 		}
-		a := zzverif.Choice("assert", 3)
 		if a > 0 {
-			ws("bal.ws")
+			g := 1
+			if long {
+				g = 1 + zzverif.Choice("bal.ws", 2)
+			}
+			l.spaces(g)
 			if a == 1 {
 				l.op("=")
 			} else {
 				l.op("==")
 			}
-			ws("bal.ws2")
-			l.amount("bal", n, lvl)
+			l.spaces(g)
+			l.amount("bal", 2, lvlBal)
 		}
 	case 8: // posting comment: free text and tags in every form
 		l.indent(4)
@@ -622,10 +657,11 @@ func c17Scenario(l *c17Line, sc, n int, long bool) []*c17Line {
 			zzverif.Assume(kind == c17DevKind)
 		}
 		// quick: every blank / length variant of a single tag; two-part comments in their plainest form
-		if long || kind <= 2 {
+		if kind <= 2 {
 			l.comment("pc", kind, n, true)
 		} else {
-			l.comment("pc", kind, 1, false)
+			l.noCRLF = true
+			l.comment("pc", kind, 1, long)
 		}
 	case 9: // account / include / year directives, also after other lines
 		switch zzverif.Choice("before", 3) {
@@ -708,7 +744,7 @@ func c17Scenario(l *c17Line, sc, n int, long bool) []*c17Line {
 		if zzverif.Choice("indented", 2) == 1 {
 			l.indent([]int{0, 2, 4}[zzverif.Choice("indent", 3)])
 		}
-		l.comment("lc", zzverif.Choice("lc.kind", 5), n, long)
+		l.comment("lc", zzverif.Choice("lc.kind", 5), 2, false) // every tag variant: scenario 8
 	default: // a small transaction; every line takes part (order across lines)
 		l.noWide = true
 		h := &c17Line{noWide: true}
@@ -1147,7 +1183,7 @@ func verifC17Geo(long bool, n int, sc int) {
 	before := c17Scenario(l, sc, n, long)
 	eol := "\n"
 	// CRLF line ends: on the scenarios whose lines end in different kinds of leaf
-	if (long || sc == 0 || sc == 5 || sc == 9 || sc == 11 || sc == 12) && zzverif.Choice("crlf", 2) == 1 {
+	if (long || sc == 0 || sc == 5 || sc == 9 || sc == 11 || sc == 12) && !l.noCRLF && zzverif.Choice("crlf", 2) == 1 {
 		eol = "\r\n"
 	}
 	lines := append(before, l)
